@@ -606,6 +606,10 @@ std::string cycp_line(std::vector<std::string> const &t)
   fcppt::iterator::swap(x, y);
   r += " fsw=" + show(x) + "," + show(y);
   x.swap(x);
+  {
+    iterator const &alias{x}; // self-assignment
+    x = alias;
+  }
   r += " ssw=" + show(x);
   iterator z{x};
   if (!(z == x) || show(z) != show(x))
@@ -641,6 +645,51 @@ std::string cycl_line(std::vector<std::string> const &t)
   iterator b{it0};
   b -= k;
   return "adv=" + std::to_string(idx(a)) + " alt=" + (a == b ? "1" : "0");
+}
+
+// converting constructor / assignment: cyclic_iterator<iterator> -> cyclic_iterator<const_iterator>
+template <typename C, bool RandomAccess>
+std::string cycc_line(std::vector<std::string> const &t)
+{
+  if (t.size() != 10)
+    return "bad-op";
+  long long const len = vh::to_ll(t[2]), f = vh::to_ll(t[3]), s = vh::to_ll(t[4]), i = vh::to_ll(t[5]), f2 = vh::to_ll(t[6]), s2 = vh::to_ll(t[7]),
+                  j = vh::to_ll(t[8]), k = vh::to_ll(t[9]);
+  if (!(0 <= f && f < s && s <= len && f <= i && i < s && 0 <= f2 && f2 <= s2 && s2 <= len && 0 <= j && j <= len && len <= 64 && -1000 <= k && k <= 1000))
+    return "bad-op";
+  C c{make_container<C>(static_cast<std::size_t>(len))};
+  using mit = typename C::iterator;
+  using cit = typename C::const_iterator;
+  using miterator = fcppt::cyclic_iterator<mit>;
+  using citerator = fcppt::cyclic_iterator<cit>;
+  auto const mat = [&c](long long const p) { return std::next(c.begin(), p); };
+  auto const cat = [&c](long long const p) { return std::next(c.cbegin(), p); };
+  auto const pos = [&c](cit const p) { return std::to_string(static_cast<long long>(std::distance(c.cbegin(), p))); };
+  auto const show = [&pos](citerator const &q)
+  { return pos(q.get()) + ":" + pos(fcppt::tuple::get<0>(q.get_boundary())) + ":" + pos(fcppt::tuple::get<1>(q.get_boundary())); };
+  miterator x{mat(i), typename miterator::boundary{mat(f), mat(s)}};
+  citerator y{x}; // converting constructor
+  citerator z{};
+  citerator &zr{z = x}; // converting assignment into a default-constructed iterator
+  citerator w{cat(j), typename citerator::boundary{cat(f2), cat(s2)}};
+  w = x; // ... over an existing iterator with another boundary
+  citerator same{};
+  same.template operator=<cit>(y); // OtherIterator = ContainerIterator
+  std::string r = "cv=" + show(y) + " as=" + show(z) + (&zr == &z ? "" : "!ref") + " ow=" + show(w) + " st=" + show(same) + " eq=" + (y == z ? "1" : "0");
+  citerator a{y};
+  if constexpr (RandomAccess)
+    a += k;
+  else
+    for (long long n = 0; n < (k < 0 ? -k : k); ++n)
+    {
+      if (k < 0)
+        --a;
+      else
+        ++a;
+    }
+  r += " adv=" + pos(a.get());
+  ++x;
+  return r + " src=" + pos(x.get()) + ":" + pos(y.get());
 }
 
 // the default constructor
@@ -873,6 +922,12 @@ std::string handle_inner(std::vector<std::string> const &t)
     return cycp_line(t);
   if (op == "cycl")
     return cycl_line(t);
+  if (op == "cycc" && t.size() == 10)
+  {
+    if (t[1] == "v") return cycc_line<ivec, true>(t);
+    if (t[1] == "l") return cycc_line<ilist, false>(t);
+    return "bad-op";
+  }
   if (op == "cycd" && t.size() == 6)
   {
     if (t[1] == "v") return cycd_line<ivec>(t);
